@@ -578,10 +578,19 @@ void MemoryLeakDetector::storeLeakInformation(MemoryLeakDetectorNode * node, cha
 
 char* MemoryLeakDetector::reallocateMemoryAndLeakInformation(TestMemoryAllocator* allocator, char* memory, size_t size, const char* file, size_t line, bool allocatNodesSeperately)
 {
+    MemoryLeakDetectorNode *node = NULLPTR;
+    if (allocatNodesSeperately) {
+        /* get the separate record first: once the block has been reallocated it is too late to fail */
+        node = createMemoryLeakAccountingInformation(allocator, size, NULLPTR, allocatNodesSeperately);
+        if (node == NULLPTR) return NULLPTR;
+    }
     char* new_memory = reallocateMemoryWithAccountingInformation(allocator, memory, size, file, line, allocatNodesSeperately);
-    if (new_memory == NULLPTR) return NULLPTR;
+    if (new_memory == NULLPTR) {
+        if (allocatNodesSeperately) allocator->freeMemoryLeakNode((char*) node);
+        return NULLPTR;
+    }
 
-    MemoryLeakDetectorNode *node = createMemoryLeakAccountingInformation(allocator, size, new_memory, allocatNodesSeperately);
+    if (!allocatNodesSeperately) node = createMemoryLeakAccountingInformation(allocator, size, new_memory, allocatNodesSeperately);
     storeLeakInformation(node, new_memory, size, allocator, file, line);
     return node->memory_;
 }
@@ -665,6 +674,10 @@ char* MemoryLeakDetector::allocMemory(TestMemoryAllocator* allocator, size_t siz
     char* memory = allocateMemoryWithAccountingInformation(allocator, size, file, line, allocatNodesSeperately);
     if (memory == NULLPTR) return NULLPTR;
     MemoryLeakDetectorNode* node = createMemoryLeakAccountingInformation(allocator, size, memory, allocatNodesSeperately);
+    if (node == NULLPTR) {
+        allocator->free_memory(memory, size, file, line);
+        return NULLPTR;
+    }
 
     storeLeakInformation(node, memory, size, allocator, file, line);
     return node->memory_;
